@@ -281,11 +281,9 @@ class C08(PropertyCheck):
             ds = ModeWrapper(build(seed), mode=mode)
             out = {}
             for epoch in range(2):
-                dl = DataLoader(ds, batch_size=1, num_workers=nw, shuffle=(nw % 2 == 1), worker_init_fn=ds.worker_init_fn,
-                                collate_fn=lambda b: b[0])
-                idxs = list(dl.sampler) if nw == 0 else None
                 dl2 = DataLoader(ModeWrapper(ds.dataset, mode="index " + mode), batch_size=1, num_workers=nw, shuffle=(nw % 2 == 1),
-                                 worker_init_fn=ds.worker_init_fn, collate_fn=lambda b: b[0])
+                                 worker_init_fn=lambda wid: ds.worker_init_fn(wid, batch_size=1, updates=100),
+                                 collate_fn=lambda b: b[0])
                 for idx, val in dl2:
                     c = canon(val)
                     if idx in out and out[idx] != c:
